@@ -106,13 +106,31 @@ pub fn line_truth(r: &Rendered, tr: &Truth) -> LineTruth {
     LineTruth { text, fate, dedents, expected, ambiguous, ws_first_inner, unwrapped }
 }
 
-/// KF1 signature: line 1 starts with a blank and carries the opening tag of an element that is removed
-/// (default strategy or unwrappable).
+/// KF1 signature (narrowed after fix of the single-removal case): line 1 starts with a blank and carries the opening
+/// tag of an element that is removed (default strategy or unwrappable), AND the removed region that begins there is
+/// followed, after blanks and line breaks only, by another removed region (two tidied seams at the start of the file).
 pub fn kf1_signature(r: &Rendered, tr: &Truth) -> bool {
     if !(r.src.starts_with(' ') || r.src.starts_with('\t')) {
         return false;
     }
-    r.elems.iter().enumerate().any(|(i, e)| e.open_line == 0 && tr.decisions[i] == Decision::Ready && matches!(tr.extents[i], Extent::Whole(_) | Extent::Parts(..)))
+    if !r.elems.iter().enumerate().any(|(i, e)| e.open_line == 0 && tr.decisions[i] == Decision::Ready && matches!(tr.extents[i], Extent::Whole(_) | Extent::Parts(..))) {
+        return false;
+    }
+    let b = r.src.as_bytes();
+    let mut k = 0;
+    while k < b.len() && (b[k] == b' ' || b[k] == b'\t') {
+        k += 1;
+    }
+    if k >= b.len() || tr.keep[k] {
+        return false;
+    }
+    while k < b.len() && !tr.keep[k] {
+        k += 1;
+    }
+    while k < b.len() && tr.keep[k] && (b[k] == b' ' || b[k] == b'\t' || b[k] == b'\n') {
+        k += 1;
+    }
+    k < b.len() && !tr.keep[k]
 }
 
 /// Every maximal run of removed lines belongs to one seam and has a surviving non-blank line directly
